@@ -112,6 +112,30 @@ Theorem C02_snapshot_after_commit : forall (P : Type) (empty : P) (mergepay : li
 Proof. exact @snapshot_after_commit. Qed.
 Print Assumptions C02_snapshot_after_commit.
 
+(** The same for every world that arises from the empty directory when every [uuid1()]
+    call returns an id that no file of the directory carries ([fresh_run]): no assumption
+    about the world is left.  [h]: the handle before the commit, [h1]: after it. *)
+Theorem C02_snapshot_reachable : forall (P : Type) (empty : P) (mergepay : list P -> P)
+    before m after (w1 : world P) r u,
+  fresh_run empty mergepay before (@empty_world P) ->
+  step empty mergepay (FCommit m) (run empty mergepay before (@empty_world P)) = (w1, Ok) ->
+  exists h h1, here (run empty mergepay before (@empty_world P)) = POpen h /\ here w1 = POpen h1 /\
+    let l := map fname (mine (hs h1)) in
+    (forall nm, In nm l -> safe_for after nm) ->
+    exists s', open_cls empty (hmf h1) MR (ByList l) (wdir (run empty mergepay after w1))
+                        (hsides (run empty mergepay after w1)) r u = Opened s' /\
+               mine s' = mine (hs h1) /\ view s' = view (hs h1) /\
+               map fst (view s') = map fst (view (hs h)).
+Proof. exact @snapshot_reachable. Qed.
+Print Assumptions C02_snapshot_reachable.
+
+(** With fresh uuids the files of every handle form a coherent chain (what [_open] checks),
+    after any sequence of operations. *)
+Theorem C02_chains_stay_coherent : forall (P : Type) (empty : P) (mergepay : list P -> P) ops (w : world P),
+  ginv w -> fresh_run empty mergepay ops w -> ginv (run empty mergepay ops w).
+Proof. exact @run_ginv. Qed.
+Print Assumptions C02_chains_stay_coherent.
+
 (** The exclusion is necessary: [delete_files] (which mode 'w' calls) removes committed
     files of the record it addresses. *)
 Theorem C02_truncation_is_excluded_for_a_reason : forall (P : Type) (empty : P) (mergepay : list P -> P)
@@ -173,6 +197,10 @@ Example later_keeps_committed :
   /\ file_at nm (wdir (xrun build empty_world)) <> None
   /\ side_of nm (hsides (xrun later (xrun build empty_world))) = side_of nm (hsides (xrun build empty_world)).
 Proof. intros nm [E|[E|[]]]; subst nm; vm_compute; (split; [reflexivity|split; [discriminate|reflexivity]]). Qed.
+
+(** The ids of the concrete history are fresh in the sense of [fresh_run]. *)
+Example build_later_fresh : fresh_run (@nil string) merge_tokens (build ++ later) empty_world.
+Proof. vm_compute. repeat split; intros H; repeat (destruct H as [H|H]; [discriminate H|]); exact H. Qed.
 
 (** The snapshot of the build still opens with IH5MFRecord and shows tk2 over tk1. *)
 Example later_snapshot_opens :
